@@ -11,3 +11,22 @@ package browse
 //@ use casketfile/contracts_verif.go:dispenser_api
 //@ use @verif/specs/stdlib.spec:stdlib
 //@ use @verif/specs/stdlib.spec:casket_api
+
+//@ unit tryfiles_handler props=C12,C11 nilchecks=on filter=`TryFiles\)\.ServeHTTP$`
+//@ // the handler the directive installs: it rewrites the request in place (or not, under an `except` path) and then runs
+//@ // the rest of the chain exactly once, handing its answer through unchanged
+//@ ghost nextCalls int
+//@ ghost nextStatus int
+//@ extern invoke:(github.com/tmpim/casket/caskethttp/httpserver.Handler).ServeHTTP
+//@   modifies ghost:nextCalls, ghost:nextStatus
+//@   ensures nextCalls == old(nextCalls) + 1 && nextStatus == result0
+//@ extern (github.com/tmpim/casket/caskethttp/httpserver.Path).Matches
+//@   pure
+//@ extern github.com/tmpim/casket/caskethttp/httpserver.NewReplacer
+//@ extern github.com/tmpim/casket/caskethttp/rewrite.To
+//@ func (*TryFiles).ServeHTTP
+//@   requires t != nil && t.Config != nil && t.Next != nil && r != nil && r.URL != nil
+//@   modifies ghost:nextCalls, ghost:nextStatus
+//@   ensures [next_exactly_once] nextCalls == old(nextCalls) + 1
+//@   ensures [answer_handed_through] result0 == nextStatus
+//@   loop 1 invariant 0 <= #i && #i <= len(t.Config.Except) && nextCalls == old(nextCalls)
